@@ -687,3 +687,241 @@ Proof.
     destruct Hr as [H1 [H2 [H3 [H4 [H5 H6]]]]]. repeat split; try assumption.
     intros p Hp. destruct (H4 p Hp) as [->|Hin]; [left; reflexivity | right; apply ev_readies_In; exact Hin].
 Qed.
+
+(* ---------------------------------------------------------------------------------------------- *)
+(* The waits with time: messages of other peers neither move the relayer nor keep it waiting. *)
+
+Lemma rearm_foreign : forall c cto deadline st at_ m,
+  from_is c m = false -> rearm (Some c) cto deadline st at_ m = deadline.
+Proof.
+  intros c cto deadline st at_ m Hf. unfold rearm, from_is in *.
+  destruct st; destruct m as [f|f ps|f]; try reflexivity.
+  cbn [msg_from] in Hf. cbn [from_ok]. rewrite Hf. reflexivity.
+Qed.
+
+(* once the ticker of the present state has fired, whatever arrives later finds the wait over *)
+Lemma tw_run_expired : forall wc c cto tto horizon deadline st l,
+  st <> Finished ->
+  (forall x, In x l -> (fst (expiry deadline tto st) <= fst x)%N) ->
+  (fst (expiry deadline tto st) < horizon)%N ->
+  tw_run wc c cto tto horizon deadline st l = ([], snd (expiry deadline tto st)).
+Proof.
+  intros wc c cto tto horizon deadline st l Hst Hall Hh.
+  destruct l as [|[at_ m] r]; cbn [tw_run].
+  - destruct st; try congruence; destruct (expiry deadline tto _) as [e k]; cbn [fst snd] in *;
+      (assert (Hlt : (e <? horizon)%N = true) by (apply N.ltb_lt; exact Hh)); rewrite Hlt; reflexivity.
+  - specialize (Hall (at_, m) (or_introl eq_refl)). cbn [fst] in Hall.
+    destruct st; try congruence; destruct (expiry deadline tto _) as [e k]; cbn [fst snd] in *;
+      (assert (Hle : (e <=? at_)%N = true) by (apply N.leb_le; exact Hall)); rewrite Hle; reflexivity.
+Qed.
+
+Lemma sorted_times_cons : forall x r, sorted_times (x :: r) = true ->
+  (forall y, In y r -> (fst x <= fst y)%N) /\ sorted_times r = true.
+Proof.
+  intros x r H. cbn [sorted_times] in H. apply andb_true_iff in H. destruct H as [Ha Hs]. split; [|exact Hs].
+  intros y Hy. rewrite forallb_forall in Ha. apply N.leb_le. exact (Ha y Hy).
+Qed.
+
+Lemma timed_only_coordinator_moves : forall wc c cto tto horizon msgs deadline st,
+  watcher_told wc c ->
+  sorted_times msgs = true -> in_horizon horizon msgs = true ->
+  tw_run wc (Some c) cto tto horizon deadline st msgs
+  = tw_run wc (Some c) cto tto horizon deadline st (own_msgs c msgs).
+Proof.
+  intros wc c cto tto horizon msgs deadline st Hwc. revert deadline st.
+  induction msgs as [|[at_ m] r IH]; intros deadline st Hs Hh; [reflexivity|].
+  apply sorted_times_cons in Hs. destruct Hs as [Hle Hs].
+  cbn [in_horizon forallb fst] in Hh. apply andb_true_iff in Hh. destruct Hh as [Hat Hh].
+  fold (in_horizon horizon r) in Hh. apply N.ltb_lt in Hat.
+  unfold own_msgs. cbn [filter snd]. fold (own_msgs c r).
+  destruct (from_is c m) eqn:Hf.
+  - (* the coordinator's own message: both sides take the same step *)
+    cbn [tw_run]. destruct st; try reflexivity;
+      destruct (expiry deadline tto _) as [e k]; destruct (e <=? at_)%N; try reflexivity;
+      destruct (wait_step2 wc (Some c) _ m) as [st' o]; rewrite (IH _ st' Hs Hh); reflexivity.
+  - (* a message of another peer *)
+    destruct st.
+    + (* Waiting *)
+      cbn [tw_run]. destruct (expiry deadline tto Waiting) as [e k] eqn:He.
+      destruct (e <=? at_)%N eqn:Hexp.
+      * apply N.leb_le in Hexp. symmetry.
+        pose proof (tw_run_expired wc (Some c) cto tto horizon deadline Waiting (own_msgs c r)) as Hx.
+        rewrite He in Hx. cbn [fst snd] in Hx. apply Hx; [discriminate | | lia].
+        intros x Hin. unfold own_msgs in Hin. apply filter_In in Hin. destruct Hin as [Hin _].
+        specialize (Hle x Hin). cbn [fst] in Hle. lia.
+      * rewrite (wait_step2_foreign wc c Waiting m Hwc Hf). rewrite (rearm_foreign c cto deadline Waiting at_ m Hf).
+        rewrite (IH deadline Waiting Hs Hh).
+        destruct (tw_run wc (Some c) cto tto horizon deadline Waiting (own_msgs c r)). reflexivity.
+    + (* Running *)
+      cbn [tw_run]. destruct (expiry deadline tto Running) as [e k] eqn:He.
+      destruct (e <=? at_)%N eqn:Hexp.
+      * apply N.leb_le in Hexp. symmetry.
+        pose proof (tw_run_expired wc (Some c) cto tto horizon deadline Running (own_msgs c r)) as Hx.
+        rewrite He in Hx. cbn [fst snd] in Hx. apply Hx; [discriminate | | lia].
+        intros x Hin. unfold own_msgs in Hin. apply filter_In in Hin. destruct Hin as [Hin _].
+        specialize (Hle x Hin). cbn [fst] in Hle. lia.
+      * rewrite (wait_step2_foreign wc c Running m Hwc Hf). rewrite (rearm_foreign c cto deadline Running at_ m Hf).
+        rewrite (IH deadline Running Hs Hh).
+        destruct (tw_run wc (Some c) cto tto horizon deadline Running (own_msgs c r)). reflexivity.
+    + (* Finished *)
+      cbn [tw_run]. destruct (own_msgs c r) as [|[a' m'] r']; reflexivity.
+Qed.
+
+Lemma own_msgs_none : forall c msgs,
+  (forall x, In x msgs -> from_is c (snd x) = false) -> own_msgs c msgs = [].
+Proof.
+  intros c. induction msgs as [|x r IH]; intros H; [reflexivity|].
+  unfold own_msgs. cbn [filter]. rewrite (H x (or_introl eq_refl)). apply IH. intros y Hy. apply H. right. exact Hy.
+Qed.
+
+(* only messages of other peers: nothing is done, and the wait ends exactly as if nothing had arrived -
+   by the coordinator-timeout ticker at its ORIGINAL deadline (or by the watcher's) *)
+Corollary timed_forged_only : forall wc c cto tto horizon msgs deadline st,
+  watcher_told wc c ->
+  sorted_times msgs = true -> in_horizon horizon msgs = true ->
+  (forall x, In x msgs -> from_is c (snd x) = false) ->
+  tw_run wc (Some c) cto tto horizon deadline st msgs = tw_run wc (Some c) cto tto horizon deadline st [].
+Proof.
+  intros wc c cto tto horizon msgs deadline st Hwc Hs Hh Hall.
+  rewrite (timed_only_coordinator_moves wc c cto tto horizon msgs deadline st Hwc Hs Hh).
+  rewrite (own_msgs_none c msgs Hall). reflexivity.
+Qed.
+
+(* a silent coordinator in the middle of any traffic of other peers: CoordinatorError at the
+   coordinator timeout, provided the relayer is watched that long *)
+Corollary timed_silent_coordinator : forall c cto tto horizon msgs,
+  sorted_times msgs = true -> in_horizon horizon msgs = true ->
+  (forall x, In x msgs -> from_is c (snd x) = false) ->
+  (cto < tto)%N -> (cto < horizon)%N ->
+  timed_first c cto tto horizon msgs = ([], TCoordTimeout).
+Proof.
+  intros c cto tto horizon msgs Hs Hh Hall Ht Hz. unfold timed_first.
+  rewrite (timed_forged_only (Some c) c cto tto horizon msgs cto Waiting (or_intror eq_refl) Hs Hh Hall).
+  cbn [tw_run expiry]. apply N.ltb_lt in Ht. rewrite Ht. apply N.ltb_lt in Hz. rewrite Hz. reflexivity.
+Qed.
+
+Lemma caused_spec_app_l : forall c a b o, caused_spec c a o -> caused_spec c (a ++ b) o.
+Proof.
+  intros c a b o H. destruct o; cbn [caused_spec] in *; try (apply in_or_app; left; exact H).
+  destruct H as [H1 H2]. split; [exact H1 | apply in_or_app; left; exact H2].
+Qed.
+
+Lemma tw_run_caused : forall wc c cto tto horizon msgs deadline st outs k,
+  watcher_told wc c ->
+  tw_run wc (Some c) cto tto horizon deadline st msgs = (outs, k) ->
+  forall x, In x outs -> caused_spec c (map snd msgs) x.
+Proof.
+  intros wc c cto tto horizon msgs. induction msgs as [|[at_ m] r IH]; intros deadline st outs k Hwc Hrun x Hx.
+  - cbn [tw_run] in Hrun. destruct st; try destruct (expiry deadline tto _) as [e k0];
+      inversion Hrun; subst; destruct Hx.
+  - cbn [tw_run] in Hrun. cbn [map snd].
+    destruct st; try (inversion Hrun; subst; destruct Hx; fail).
+    + destruct (expiry deadline tto Waiting) as [e k0]. destruct (e <=? at_)%N; [inversion Hrun; subst; destruct Hx|].
+      destruct (wait_step2 wc (Some c) Waiting m) as [st1 o] eqn:Hstep.
+      destruct (tw_run wc (Some c) cto tto horizon (rearm (Some c) cto deadline Waiting at_ m) st1 r) as [o' k'] eqn:Hrec.
+      inversion Hrun; subst. apply in_app_or in Hx. destruct Hx as [Hx|Hx].
+      * apply caused_spec_weaken. eapply wait_step2_caused; eassumption.
+      * apply caused_spec_cons. eapply IH; eassumption.
+    + destruct (expiry deadline tto Running) as [e k0]. destruct (e <=? at_)%N; [inversion Hrun; subst; destruct Hx|].
+      destruct (wait_step2 wc (Some c) Running m) as [st1 o] eqn:Hstep.
+      destruct (tw_run wc (Some c) cto tto horizon (rearm (Some c) cto deadline Running at_ m) st1 r) as [o' k'] eqn:Hrec.
+      inversion Hrun; subst. apply in_app_or in Hx. destruct Hx as [Hx|Hx].
+      * apply caused_spec_weaken. eapply wait_step2_caused; eassumption.
+      * apply caused_spec_cons. eapply IH; eassumption.
+Qed.
+
+Lemma tw_run_counts : forall wc c cto tto horizon msgs deadline st outs k,
+  tw_run wc (Some c) cto tto horizon deadline st msgs = (outs, k) ->
+  (count_ready outs <= count_initiates c (map snd msgs))%nat
+  /\ (count_runs outs <= match st with Waiting => 1 | _ => 0 end)%nat.
+Proof.
+  intros wc c cto tto horizon msgs. induction msgs as [|[at_ m] r IH]; intros deadline st outs k Hrun.
+  - cbn [tw_run] in Hrun. destruct st; try destruct (expiry deadline tto _) as [e k0];
+      inversion Hrun; subst; cbn; split; lia.
+  - cbn [tw_run] in Hrun. cbn [map snd].
+    assert (Hnil : outs = [] ->
+              (count_ready outs <= count_initiates c (m :: map snd r))%nat
+              /\ (count_runs outs <= match st with Waiting => 1 | _ => 0 end)%nat).
+    { intros ->. cbn. split; [lia | destruct st; lia]. }
+    destruct st; try (apply Hnil; inversion Hrun; reflexivity).
+    + destruct (expiry deadline tto Waiting) as [e k0]. destruct (e <=? at_)%N; [apply Hnil; inversion Hrun; reflexivity|].
+      destruct (wait_step2 wc (Some c) Waiting m) as [st1 o] eqn:Hstep.
+      destruct (tw_run wc (Some c) cto tto horizon (rearm (Some c) cto deadline Waiting at_ m) st1 r) as [o' k'] eqn:Hrec.
+      injection Hrun as Ho Hk. subst outs. specialize (IH _ _ _ _ Hrec). destruct IH as [IH1 IH2].
+      rewrite count_ready_app, count_runs_app. unfold count_initiates in *. cbn [filter].
+      destruct m as [f|f ps|f]; cbn [wait_step2 from_ok] in Hstep;
+        try (destruct (N.eqb f c) eqn:E); try (destruct (fail_ok wc f)); try (destruct ps);
+        inversion Hstep; subst; cbn [count_ready count_runs filter length Nat.add] in *;
+        try rewrite E; cbn [length]; split; lia.
+    + destruct (expiry deadline tto Running) as [e k0]. destruct (e <=? at_)%N; [apply Hnil; inversion Hrun; reflexivity|].
+      destruct (wait_step2 wc (Some c) Running m) as [st1 o] eqn:Hstep.
+      destruct (tw_run wc (Some c) cto tto horizon (rearm (Some c) cto deadline Running at_ m) st1 r) as [o' k'] eqn:Hrec.
+      injection Hrun as Ho Hk. subst outs. specialize (IH _ _ _ _ Hrec). destruct IH as [IH1 IH2].
+      rewrite count_ready_app, count_runs_app. unfold count_initiates in *. cbn [filter].
+      destruct m as [f|f ps|f]; cbn [wait_step2 from_ok] in Hstep;
+        try (destruct (N.eqb f c) eqn:E); try (destruct (fail_ok wc f)); try (destruct ps);
+        inversion Hstep; subst; cbn [count_ready count_runs filter length Nat.add] in *;
+        try rewrite E; cbn [length]; split; lia.
+Qed.
+
+Lemma tw_run_justified : forall wc c cto tto horizon msgs deadline,
+  watcher_told wc c ->
+  outs_justified c (map snd msgs) (fst (tw_run wc (Some c) cto tto horizon deadline Waiting msgs)) = true.
+Proof.
+  intros wc c cto tto horizon msgs deadline Hwc.
+  destruct (tw_run wc (Some c) cto tto horizon deadline Waiting msgs) as [outs k] eqn:Hrun. cbn [fst].
+  unfold outs_justified. repeat rewrite andb_true_iff. repeat split.
+  - apply forallb_forall. intros x Hx. apply caused_complete. eapply tw_run_caused; eassumption.
+  - apply Nat.leb_le. apply (tw_run_counts _ _ _ _ _ _ _ _ _ _ Hrun).
+  - apply Nat.leb_le. apply (tw_run_counts _ _ _ _ _ _ _ _ _ _ Hrun).
+Qed.
+
+Lemma wout_eqb_eq : forall a b, wout_eqb a b = true <-> a = b.
+Proof.
+  intros a b. destruct a, b; cbn [wout_eqb]; split; intros H; try discriminate; try reflexivity.
+  - apply N.eqb_eq in H. subst. reflexivity.
+  - inversion H; subst. apply N.eqb_refl.
+  - apply list_peer_eqb_eq in H. subst. reflexivity.
+  - inversion H; subst. apply list_peer_eqb_eq. reflexivity.
+Qed.
+
+Lemma wouts_eqb_eq : forall a b, wouts_eqb a b = true <-> a = b.
+Proof.
+  induction a as [|x a IH]; destruct b as [|y b]; cbn [wouts_eqb]; split; intros H; try discriminate; try reflexivity.
+  - apply andb_true_iff in H. destruct H as [H1 H2]. apply wout_eqb_eq in H1. apply IH in H2. subst. reflexivity.
+  - inversion H; subst. apply andb_true_iff. split; [apply wout_eqb_eq | apply IH]; reflexivity.
+Qed.
+
+Lemma tobs_eqb_eq : forall a b, tobs_eqb a b = true <-> a = b.
+Proof.
+  intros [o k] [o' k']. unfold tobs_eqb. cbn [fst snd]. rewrite andb_true_iff, wouts_eqb_eq. split.
+  - intros [-> H]. destruct k, k'; try discriminate; reflexivity.
+  - intros H. inversion H; subst. split; [reflexivity | destruct k'; reflexivity].
+Qed.
+
+(* the judge of the timed cases accepts the model (first and retried attempt) for all timed streams *)
+Lemma timed_ignored_model : forall wc c cto tto horizon msgs,
+  watcher_told wc c ->
+  timed_ignored c horizon msgs
+    (tw_run wc (Some c) cto tto horizon cto Waiting msgs)
+    (tw_run wc (Some c) cto tto horizon cto Waiting (own_msgs c msgs)) = true.
+Proof.
+  intros wc c cto tto horizon msgs Hwc. unfold timed_ignored.
+  destruct (sorted_times msgs && in_horizon horizon msgs) eqn:Hwf; [|reflexivity].
+  apply andb_true_iff in Hwf. destruct Hwf as [Hs Hh].
+  apply andb_true_iff. split.
+  - apply tobs_eqb_eq. apply timed_only_coordinator_moves; assumption.
+  - apply tw_run_justified. exact Hwc.
+Qed.
+
+(* what the judge's acceptance means: the same actions and the same end - whether and by which ticker
+   the wait timed out within the horizon - with and without the messages of other peers *)
+Lemma timed_ignored_sound : forall c horizon msgs a b,
+  timed_ignored c horizon msgs a b = true ->
+  sorted_times msgs = true -> in_horizon horizon msgs = true ->
+  a = b /\ (forall o, In o (fst a) -> caused_spec c (map snd msgs) o).
+Proof.
+  intros c horizon msgs a b H Hs Hh. unfold timed_ignored in H. rewrite Hs, Hh in H. cbn [andb] in H.
+  apply andb_true_iff in H. destruct H as [He Hj]. split; [apply tobs_eqb_eq; exact He|].
+  apply outs_justified_sound in Hj. destruct Hj as [Hc _]. exact Hc.
+Qed.
